@@ -83,3 +83,22 @@ Theorem C19_bandwidth_update_is_homogeneous : forall (base q eps : R) (med : lis
 Proof. exact adapt_bandwidth_homogeneous. Qed.
 Print Assumptions C19_stored_bandwidth_is_base_times_median.
 Print Assumptions C19_bandwidth_update_is_homogeneous.
+
+(* ---------- the composition theorem INSTANTIATED for the L2 Laplace kernel: every component concrete ---------- *)
+Require Import XV.Real.ScaleInvL2.
+(* Training rows X, base bandwidth, exponent q, mask threshold eps; bandwidth = base * med(pairwise distances under the current transform) with any
+   positively homogeneous order statistic `med`; Gram matrix and predictor from the closed-form L2 kernel; AGOP = normalised sum of outer products of the closed-form
+   (masked) L2 gradients at the training points, handed to an ARBITRARY `root` to give the next transform; coefficients from an ARBITRARY solver of the Gram matrix.
+   If at every round of the unscaled fit the bandwidth and the AGOP normaliser are positive and no pairwise distance falls strictly between 0 and the mask threshold
+   (for X and for cX), then after ANY number of rounds the fit on c*X has the same transforms and coefficients, bandwidths multiplied by c, and identical predictions. *)
+Theorem C19_l2_fit_commutes_with_rescaling :
+  forall (base q eps : R) (med : list R -> R),
+  (forall c l, (0 < c)%R -> med (map (Rmult c) l) = (c * med l)%R) ->
+  forall (solve : list (list R) -> list R) (root : list (list R) -> tmat) (c : R) (t0 : tmat) (X : list (list R)), (0 < c)%R -> (0 < eps)%R ->
+  (forall n, (0 < base * med (pdist (featmatL2 base q eps med solve root t0 X n) X))%R) ->
+  (forall n, masks eps c (featmatL2 base q eps med solve root t0 X n) X) ->
+  (forall n, (0 < mmaxR (agop_raw (gradsL2 q eps (featmatL2 base q eps med solve root t0 X n) (bandwidthL2 base q eps med solve root t0 X n) X
+                                           (coefsL2 base q eps med solve root t0 X n))))%R) ->
+  forall n z, predictionL2 base q eps med solve root t0 (scaleX c X) n (qscale c z) = predictionL2 base q eps med solve root t0 X n z.
+Proof. exact l2_fit_commutes_with_rescaling. Qed.
+Print Assumptions C19_l2_fit_commutes_with_rescaling.
